@@ -245,12 +245,20 @@ def _total_ns(p):
 @contract(P + "normalize", "C09", name="Period.normalize: same years/months and same total length; weeks and ticks become 0; every unit in its natural range; one sign")
 def _(c):
     c.arg("self", PeriodG(-(10**12), 10**12))
-    c.timeout_s = 300
-    c.vc_chunks = 4
     units = ("days", "hours", "minutes", "seconds", "milliseconds", "nanoseconds")
     g = lambda r, n: V.per(r, n)  # noqa: E731
+    # truncated mixed-radix decomposition of the total, one step per lemma (each is proved on its own from the definitions
+    # of truncated division / C#-style remainder, then available to the posts): with x_u = trunc(total / u),
+    #   x_small == x_big * k + crem(x_small, k)        and        total == x_ms * NPMS + crem(total, NPMS)
+    T = lambda a: _total_ns(a.self)  # noqa: E731
+    crem = lambda x, k: ite(And(x < 0, x % k > 0), x % k - k, x % k)  # noqa: E731  (the value _csharp_modulo computes)
+    for _big, _small, _k in ((V.NPD, V.NPH, 24), (V.NPH, V.NPM, 60), (V.NPM, V.NPS, 60), (V.NPS, V.NPMS, 1000)):
+        c.lemma((lambda big, small, k: lambda a: trunc_div(T(a), small) == trunc_div(T(a), big) * k + crem(trunc_div(T(a), small), k))(_big, _small, _k))
+    c.lemma(lambda a: T(a) == trunc_div(T(a), V.NPMS) * V.NPMS + crem(T(a), V.NPMS))
     c.returns(lambda a, r: And(g(r, "years") == V.per(a.self, "years"), g(r, "months") == V.per(a.self, "months"), g(r, "weeks") == 0, g(r, "ticks") == 0), label="kept-and-cleared")
-    c.returns(lambda a, r: _total_ns(r) == _total_ns(a.self), label="same-total")
+    # the same statement per sign of the total: each half is free of the case splits of truncated division
+    c.returns(lambda a, r: Implies(_total_ns(a.self) >= 0, _total_ns(r) == _total_ns(a.self)), label="same-total-nonnegative")
+    c.returns(lambda a, r: Implies(_total_ns(a.self) < 0, _total_ns(r) == _total_ns(a.self)), label="same-total-negative")
     c.returns(lambda a, r: Implies(_total_ns(a.self) >= 0, And(*[g(r, u) >= 0 for u in units])), label="sign-positive")
     c.returns(lambda a, r: Implies(_total_ns(a.self) <= 0, And(*[g(r, u) <= 0 for u in units])), label="sign-negative")
     c.returns(
